@@ -5,6 +5,7 @@ import (
 	"fmt"
 	"sort"
 	"sync"
+	"sync/atomic"
 	"time"
 
 	"github.com/trustbloc/sidetree-core-go/pkg/api/operation"
@@ -355,3 +356,30 @@ func (w *RecWriter) Len() int { w.mu.Lock(); defer w.mu.Unlock(); return len(w.A
 
 // Calls returns the number of Add calls (including failed ones).
 func (w *RecWriter) Calls() int { w.mu.Lock(); defer w.mu.Unlock(); return w.calls }
+
+// ---------- validators that must never be consulted while resolving ----------
+
+type rejectTime struct{ calls *int64 }
+
+func (r rejectTime) Validate(_, _ int64) error {
+	atomic.AddInt64(r.calls, 1)
+	return operationparser.ErrOperationExpired
+}
+
+type rejectOrigin struct{ calls *int64 }
+
+func (r rejectOrigin) Validate(interface{}) error {
+	atomic.AddInt64(r.calls, 1)
+	return errors.New("anchor origin not allowed (intake-only validator consulted)")
+}
+
+// IntakeValidatorCalls counts calls to the intake-only validators installed by StrictResolution.
+var IntakeValidatorCalls int64
+
+// StrictResolution returns parser options installing a server-time validator and an anchor-origin validator that reject
+// everything. Intake-only validation must never run while anchored operations are resolved (batch mode), so resolution
+// results must be unaffected by them.
+func StrictResolution() []operationparser.Option {
+	return []operationparser.Option{operationparser.WithAnchorTimeValidator(rejectTime{&IntakeValidatorCalls}),
+		operationparser.WithAnchorOriginValidator(rejectOrigin{&IntakeValidatorCalls})}
+}
